@@ -22,19 +22,23 @@ Capable(p, c) == /\ (p \in {"json", "wsjson"} => c \notin {"p", "t"})
                  /\ (c = "b" => p \in {"raw", "pb"})
 PipeOK(p, pp) == /\ (p \in {"thriftstruct", "wsjson"} => pp = "")
                  /\ (p = "wspb" => pp \in {"", "g"})
-Profiles == { [sessions |-> 1, gor |-> 1,  size |-> 0,     hold |-> 0, barrier |-> FALSE, mixed |-> FALSE, secure |-> FALSE],
-              [sessions |-> 2, gor |-> 4,  size |-> 255,   hold |-> 3, barrier |-> FALSE, mixed |-> FALSE, secure |-> FALSE],
-              [sessions |-> 1, gor |-> 16, size |-> 4096,  hold |-> 3, barrier |-> FALSE, mixed |-> FALSE, secure |-> FALSE],
-              [sessions |-> 3, gor |-> 4,  size |-> 70000, hold |-> 0, barrier |-> FALSE, mixed |-> FALSE, secure |-> FALSE],
-              [sessions |-> 2, gor |-> 4,  size |-> 256,   hold |-> 3, barrier |-> FALSE, mixed |-> FALSE, secure |-> FALSE],
-              [sessions |-> 1, gor |-> 4,  size |-> 1,     hold |-> 3, barrier |-> FALSE, mixed |-> FALSE, secure |-> FALSE],
+Profiles == { [sessions |-> 1, gor |-> 1,  size |-> 0,     hold |-> 0, barrier |-> FALSE, mixed |-> FALSE, secure |-> FALSE, observe |-> FALSE],
+              [sessions |-> 2, gor |-> 4,  size |-> 255,   hold |-> 3, barrier |-> FALSE, mixed |-> FALSE, secure |-> FALSE, observe |-> FALSE],
+              [sessions |-> 1, gor |-> 16, size |-> 4096,  hold |-> 3, barrier |-> FALSE, mixed |-> FALSE, secure |-> FALSE, observe |-> FALSE],
+              [sessions |-> 3, gor |-> 4,  size |-> 70000, hold |-> 0, barrier |-> FALSE, mixed |-> FALSE, secure |-> FALSE, observe |-> FALSE],
+              [sessions |-> 2, gor |-> 4,  size |-> 256,   hold |-> 3, barrier |-> FALSE, mixed |-> FALSE, secure |-> FALSE, observe |-> FALSE],
+              [sessions |-> 1, gor |-> 4,  size |-> 1,     hold |-> 3, barrier |-> FALSE, mixed |-> FALSE, secure |-> FALSE, observe |-> FALSE],
               \* all goroutines of the session issue their next operation at the same instant (released from a barrier)
-              [sessions |-> 1, gor |-> 32, size |-> 16,    hold |-> 0, barrier |-> TRUE, mixed |-> FALSE, secure |-> FALSE],
+              [sessions |-> 1, gor |-> 32, size |-> 16,    hold |-> 0, barrier |-> TRUE, mixed |-> FALSE, secure |-> FALSE, observe |-> FALSE],
               \* mixed outcomes: among the concurrent calls some handlers return a status of their own and some routes do not exist
-              [sessions |-> 2, gor |-> 8,  size |-> 64,    hold |-> 1, barrier |-> FALSE, mixed |-> TRUE, secure |-> FALSE],
+              [sessions |-> 2, gor |-> 8,  size |-> 64,    hold |-> 1, barrier |-> FALSE, mixed |-> TRUE, secure |-> FALSE, observe |-> FALSE],
               \* both peers carry the shipped secure plugin and an accept hook that leaves an entry in the swap of every session;
               \* every message is marked secure (the plugin keeps per-message state in the message's own swap between two hooks)
-              [sessions |-> 1, gor |-> 8,  size |-> 64,    hold |-> 1, barrier |-> FALSE, mixed |-> FALSE, secure |-> TRUE] }
+              [sessions |-> 1, gor |-> 8,  size |-> 64,    hold |-> 1, barrier |-> FALSE, mixed |-> FALSE, secure |-> TRUE, observe |-> FALSE],
+              \* both peers carry an observing plugin (metrics / tracing style): its PreWrite* / PostWrite* hooks READ everything the
+              \* WriteCtx they are given documents as readable (Status, StatusOK, the fields of Output, Swap, session id) and change
+              \* nothing, while the replies to the calls being launched arrive; overlapping calls of several goroutines per session
+              [sessions |-> 2, gor |-> 8,  size |-> 64,    hold |-> 0, barrier |-> FALSE, mixed |-> FALSE, secure |-> FALSE, observe |-> TRUE] }
 \* the websocket protobuf sub-protocol cannot carry a status (known finding of C05): no failing calls over it
 MixedOK(p, prof) == prof.mixed => p # "wspb"
 SecureOK(c) == c.prof.secure => c.proto \in {"raw", "pb"} /\ c.codec \in {"j", "p"} /\ c.pipe \in {"", "g"}
@@ -49,6 +53,6 @@ Spec == Init /\ [][Run]_vars
 CapOK == Capable(cell.proto, cell.codec) /\ PipeOK(cell.proto, cell.pipe)
 Emit == Export = "" \/
         Serialize(ToJson([proto |-> cell.proto, codec |-> cell.codec, pipe |-> cell.pipe, sessions |-> cell.prof.sessions,
-                          gor |-> cell.prof.gor, size |-> cell.prof.size, hold |-> cell.prof.hold, barrier |-> cell.prof.barrier, mixed |-> cell.prof.mixed, secure |-> cell.prof.secure]) \o "\n", Export,
+                          gor |-> cell.prof.gor, size |-> cell.prof.size, hold |-> cell.prof.hold, barrier |-> cell.prof.barrier, mixed |-> cell.prof.mixed, secure |-> cell.prof.secure, observe |-> cell.prof.observe]) \o "\n", Export,
                   [format |-> "TXT", charset |-> "UTF-8", openOptions |-> <<"WRITE", "CREATE", "APPEND">>]).exitValue = 0
 =============================================================================
